@@ -28,7 +28,7 @@ RULE = ("cases = (class of core_defs | tests/test_msg_defs | generated fixture) 
         "(class, fill mode, seed)")
 ASSUMPTIONS = ["strings with an embedded NUL are excluded (NUL terminates the char-array domain)",
                "values are written through the validated API on a fresh instance, so bytes after a terminator are zero"]
-REQUIRE = {"earlier_exports_with_other_json_options": 10, "instances": 3000, "roundtrips_compared": 15000, "copies_checked": 3000, "version_checks": 500}
+REQUIRE = {"messages_under_timecode_header": 500, "earlier_exports_with_other_json_options": 10, "instances": 3000, "roundtrips_compared": 15000, "copies_checked": 3000, "version_checks": 500}
 CASE_TIMEOUT = 120
 MODES = ["random", "min", "max", "zero", "floats", "str_empty", "str_full", "ascii", "bytes00", "bytesff", "random", "random"]
 FLOATS32 = [-0.0, float("nan"), 1.401298464324817e-45, 3.4028234663852886e38, -3.4028234663852886e38, 1.1754943508222875e-38, 0.1]
@@ -276,6 +276,10 @@ def run_case(case, tier):
             cmp("dict", lambda: cls.from_dict(m.to_dict()))
             cmp("json_min", lambda: cls.from_json(m.to_json(minify=True)))
             cmp("json_indent", lambda: cls.from_json(m.to_json()))
+            if rng.random() < 0.3:
+                # options json.dumps accepts and to_json documents: the text changes, the message it describes does not
+                cmp("json_sorted_keys", lambda: cls.from_json(m.to_json(sort_keys=True)))
+                cmp("json_min_sorted_ascii", lambda: cls.from_json(m.to_json(minify=True, sort_keys=True, ensure_ascii=False)))
             # storage independence of copies
             bump("copies_checked")
             try:
@@ -295,8 +299,12 @@ def run_case(case, tier):
                 V.append({"mech": "copy_raises", "detail": f"{cls.__name__}.copy: {type(e).__name__}: {str(e)[:200]}"})
             # header + data paths (message classes only)
             if isinstance(m, MessageData) and getattr(cls, "type_id", -1) >= 0 and pyrtma.message._msg_defs.get(cls.type_id) is cls:
-                H = get_header_cls()
+                # (every other instance travels under the timecode header layout)
+                H = get_header_cls(bool(C.get("instances", 0) % 2))
                 h = H()
+                if H is not get_header_cls():
+                    bump("messages_under_timecode_header")
+                    h.utc_seconds, h.utc_fraction = rng.choice([0, 1, 2 ** 32 - 1, rng.getrandbits(32)]), rng.choice([0, 2 ** 32 - 1, rng.getrandbits(32)])
                 h.msg_type = cls.type_id
                 h.msg_count = rng.randint(0, 2 ** 31 - 1)
                 # every value the validated header API accepts, specials included
@@ -332,6 +340,9 @@ def run_case(case, tier):
 
                 cmpM("message_json_indent", lambda: Message.from_json(M.to_json()))
                 cmpM("message_json_min", lambda: Message.from_json(M.to_json(minify=True)))
+                if rng.random() < 0.3:
+                    cmpM("message_json_sorted_keys", lambda: Message.from_json(M.to_json(sort_keys=True)))
+                    cmpM("message_json_min_sorted_keys", lambda: Message.from_json(M.to_json(minify=True, sort_keys=True)))
 
                 def via_dict():
                     d = M.to_dict()
